@@ -17,7 +17,7 @@ func init() {
 		Patterns: []string{"./d2oracle", "./d2graph"},
 		Explanation: "Decides two structural necessary conditions of the agreement, not the agreement itself: " +
 			"(1) predictions are pure — the prediction functions of d2oracle (ReparentIDDelta, ReconnectEdgeIDDeltas, MoveIDDeltas, DeleteIDDeltas, RenameIDDeltas) compute the new IDs by temporarily rewriting IDs, parents and indices of the live graph; every such write to a field of a d2graph.Object or d2graph.Edge that the function did not create itself is undone: either a later statement of the same block writes the same place back (the opposite ++/-- for counters) with no return in between, or the write sits in a closure that returns its own undo closure, the undo closure writes the same places, and every call of the closure is followed on every path by a call (or a defer) of the undo. A prediction that leaves the graph changed makes the edit that follows run on another diagram than the one predicted for; " +
-			"(2) one name generator — each edit that invents a name on a conflict (Rename, move, Delete through renameConflictsToParent) and its prediction both reach generateUniqueKey, the only function of d2oracle that generates names.",
+			"(2) one name generator — each edit that invents a name on a conflict (Rename, move, Delete through renameConflictsToParent) and its prediction both reach generateUniqueKey, the only function of d2oracle that generates names; (3) renumbering agreement — the condition under which Delete lowers the index of a parallel connection's references and the condition under which DeleteIDDeltas predicts a lowered index are both `other.Index > deleted.Index`.",
 		NotCovered: "that the predicted map equals the ID changes of the edit for a given diagram (a comparison of two executions); which elements are reported; board-scoped edits",
 		Technique:  "static analysis: paired-update (typestate) on the typed AST and go/cfg, call-graph reachability",
 		Run:        runC40,
@@ -325,6 +325,101 @@ func runC40(c *core.Check) {
 		c.Fail("C40.prediction-restores", "restore:inventory", token.NoPos, fmt.Sprintf("only %d prediction functions with %d temporary writes found", nfuncs, nwrites))
 	} else {
 		c.PassTrivial("C40.prediction-restores", "restore:inventory", token.NoPos, fmt.Sprintf("%d prediction functions, %d temporary writes to the live graph", nfuncs, nwrites))
+	}
+
+	// (3) renumbering agreement: Delete lowers the index of the later parallel connections; DeleteIDDeltas predicts
+	// the new IDs of exactly those
+	c.Rule("C40.renumber-agreement", "Delete and DeleteIDDeltas renumber the same parallel connections: those with a strictly higher index")
+	{
+		type cond struct {
+			op  token.Token
+			ok  bool
+			pos token.Pos
+		}
+		find := func(name string) cond {
+			fi := mustFunc(c, "d2oracle", "", name)
+			if fi == nil {
+				return cond{}
+			}
+			fl := core.NewFlow(fi.Pkg, fi.Decl.Body)
+			var out cond
+			ast.Inspect(fi.Decl.Body, func(n ast.Node) bool {
+				st, ok := n.(*ast.IncDecStmt)
+				if !ok || st.Tok != token.DEC || out.ok {
+					return true
+				}
+				x := exprStr(st.X)
+				if !(strings.HasSuffix(x, ".Index") || strings.HasSuffix(x, ".EdgeIndex.Int")) {
+					return true
+				}
+				// the comparison of two .Index fields among the guards; the first operand is the connection being
+				// renumbered when it is the variable of the enclosing range
+				for _, g := range fl.GuardsOfNode(st) {
+					for _, a := range g.Atoms() {
+						be, ok := ast.Unparen(a.Cond).(*ast.BinaryExpr)
+						if !ok || !strings.HasSuffix(exprStr(be.X), ".Index") || !strings.HasSuffix(exprStr(be.Y), ".Index") {
+							continue
+						}
+						op := be.Op
+						if !a.True {
+							switch op {
+							case token.LEQ:
+								op = token.GTR
+							case token.LSS:
+								op = token.GEQ
+							case token.GTR:
+								op = token.LEQ
+							case token.GEQ:
+								op = token.LSS
+							case token.EQL:
+								op = token.NEQ
+							case token.NEQ:
+								op = token.EQL
+							}
+						}
+						// orient: renumbered connection on the left = the one that is not the looked-up target; the
+						// target is the variable assigned from HasEdge
+						lroot, rroot := rootIdent(info, be.X), rootIdent(info, be.Y)
+						target := func(o types.Object) bool {
+							found := false
+							ast.Inspect(fi.Decl.Body, func(m ast.Node) bool {
+								as, ok := m.(*ast.AssignStmt)
+								if ok && len(as.Rhs) == 1 && len(as.Lhs) >= 1 && core.ObjOf(info, as.Lhs[0]) == o {
+									if call, ok := ast.Unparen(as.Rhs[0]).(*ast.CallExpr); ok && strings.HasSuffix(exprStr(call.Fun), ".HasEdge") {
+										found = true
+									}
+								}
+								return true
+							})
+							return found
+						}
+						if target(lroot) && !target(rroot) {
+							switch op {
+							case token.LSS:
+								op = token.GTR
+							case token.LEQ:
+								op = token.GEQ
+							case token.GTR:
+								op = token.LSS
+							case token.GEQ:
+								op = token.LEQ
+							}
+						}
+						out = cond{op, true, st.Pos()}
+					}
+				}
+				return true
+			})
+			return out
+		}
+		d, p := find("Delete"), find("DeleteIDDeltas")
+		switch {
+		case !d.ok || !p.ok:
+			c.Fail("C40.renumber-agreement", "renumber:Delete~DeleteIDDeltas", token.NoPos, fmt.Sprintf("the renumbering condition was not found (Delete: %v, DeleteIDDeltas: %v)", d.ok, p.ok))
+		default:
+			c.Decide(d.op == token.GTR && p.op == token.GTR, "C40.renumber-agreement", "renumber:Delete~DeleteIDDeltas", p.pos, "both renumber connections with other.Index > deleted.Index",
+				fmt.Sprintf("Delete renumbers the parallel connections with index %s the deleted one's, DeleteIDDeltas predicts new IDs for those with index %s it: the prediction and the edit disagree (or the connection with the same index is renumbered too)", d.op, p.op))
+		}
 	}
 
 	// (2) one generator
